@@ -35,6 +35,10 @@ type c04op struct {
 // served at zero virtual latency, and the router must shut down cleanly.
 func runC04(c *Ctx) {
 	g := c.Gen
+	if g.Chance(1, 4) {
+		runC04b(c) // byte-level hostile input on rawsocket / websocket
+		return
+	}
 	ks := &KS{Name: "static", Users: map[string]KSUser{"alice": {Secret: "ticket1", Role: "user"}}}
 	rc := &router.RealmConfig{
 		URI: "r1", AnonymousAuth: true, AllowDisclose: g.Bool(), StrictURI: g.Chance(1, 4),
